@@ -845,7 +845,7 @@ func c11EParts(env *mc.Env) []c11EPart {
 		for _, fs := range singles {
 			add("-n2-all", 2, fs, all, evp2, U4, R2, true)
 			add("-n3-core", 3, fs, core, evp2, U3, R2, false)
-			add("-n4", 4, fs, tiny, un, U3, R2, false)
+			add("-n4", 4, fs, tiny, un, U2, R2, false)
 		}
 		for _, fs := range pairs {
 			add("-n2-rich", 2, fs, core, evp2, U3, R2, true)
